@@ -186,6 +186,7 @@ struct DefEngine {
       rep.add("definitions");
       rep.add(rc == 0 ? "accepted" : "rejected");
       rep.add(std::string("rc_") + code_name(rc));
+      { unsigned long h = 1469598103934665603ULL; for (char c : std::to_string(idx) + "/" + std::to_string(strict) + "/" + std::to_string(rc) + vy_error_message(y)) h = (h ^ (unsigned char) c) * 1099511628211ULL; rep.counters["dg:" + std::to_string(idx / 50000)] += (long) (h >> 36); }
       std::string caseaddr = "idx=" + std::to_string(idx) + " strict=" + std::to_string(strict);
       auto V = [&](const std::string &kind, const std::string &detail) {
         std::string js = "{\"property\":\"C10\",\"kind\":" + jstr(kind) + ",\"engine\":\"def\",\"case\":" + jstr(caseaddr) + ",\"grammar\":" + jstr(raw_to_string(d)) + ",\"detail\":" + jstr(detail) + "}";
